@@ -266,8 +266,8 @@ def run(res, tier, lean, prop="C01", proof_breaks=(), build_log=""):
             break
 
     # the back-to-back regime in the model (WD.Pipe.Sys.burst: the whole burst read as one batch after its last
-    # operation): per burst, the real observer's events against the model's - in order for bursts of simple operations
-    # (the regime of C01.burst_simple_partial), as a multiset for the others (the order in which a directory walk
+    # operation): per burst, the real observer's events against the model's - in order for bursts of file operations
+    # (the regime of C01.burst_files_partial), as a multiset for the others (the order in which a directory walk
     # discovers entries is the listing order of the real file system)
     blines, bmeta = [], []
     for init_b, bursts, recursive, full, small, vanish, out in burst_runs:
@@ -288,7 +288,7 @@ def run(res, tier, lean, prop="C01", proof_breaks=(), build_log=""):
             realc = ",".join(pipe.canon_events(real))
             res.bump("bursts_replayed_in_model")
             if simple == "1":
-                res.bump("simple_bursts_replayed_in_model")
+                res.bump("file_bursts_replayed_in_model")
             same = (realc == mevs) if simple == "1" else (sorted(realc.split(",")) == sorted(mevs.split(",")))
             if not same:
                 bbad.append({"request": line, "burst_index": bi, "burst": ops_b, "simple": simple == "1",
@@ -296,7 +296,7 @@ def run(res, tier, lean, prop="C01", proof_breaks=(), build_log=""):
                 break
     if bbad and not res.violations:
         res.violation(f"correspondence WD.Pipe.Sys.burst <-> InotifyObserver broken in the back-to-back regime (theorem "
-                      f"C01.burst_simple_partial no longer tied to the code); every burst was judged by {prop}'s own "
+                      f"C01.burst_files_partial no longer tied to the code); every burst was judged by {prop}'s own "
                       "observables and none failed", dict(bbad[0], mismatching_bursts=len(bbad)), no_input=True,
                       signature=f"{prop.lower()}-burst-model")
 
